@@ -4,12 +4,16 @@ import json
 import sys
 
 pid = sys.argv[1]
+# optional: worktree suffix (second round) and a one-line note of what an earlier seeder already did
+suffix = sys.argv[2] if len(sys.argv) > 2 else ""
+avoid = sys.argv[3] if len(sys.argv) > 3 else ""
 p = None
 for l in open('/verif/properties.jsonl'):
     q = json.loads(l)
     if q['id'] == pid:
         p = q
-wt = "/tmp/wt_%s" % pid
+wt = "/tmp/wt_%s%s" % (pid, suffix)
+avoid_note = ("NOTE: another seeder has already produced this change for the same property: '" + avoid + "' -- pick a DIFFERENT mechanism in a different function (ideally a different file or a different clause of the property statement).\n") if avoid else ""
 print(f"""You are helping to evaluate a verification framework by acting as an independent "bug seeder". Work ONLY inside the scratch git worktree {wt}/src (a worktree of the C++14 library facebookincubator/dispenso: work-stealing thread pool, task sets, futures, parallel_for, pipelines, concurrent containers) and the output directory {wt}/out. Do NOT read, list or modify anything under /verif or /repo (other than through your own worktree), and do not look for any verification tooling: your change must be independent of it.
 
 THE PROPERTY (this is all you are told about what should hold):
@@ -22,7 +26,7 @@ YOUR TASK: make ONE small, realistic source change to the library (files under {
   (a) the library and all tests still compile (the build uses -Wall -Wextra -Wconversion -Werror), and
   (b) the repository's existing test suite still passes (see commands below), and
   (c) the breakage needs something SPECIFIC to manifest: a particular interleaving, a fault at a particular point, a multi-step sequence of operations, an unusual input/configuration, or two cooperating sites that each look fine alone. Do NOT make a change that ordinary use would expose at once (that would also fail the existing tests).
-The change should look like something a developer could plausibly commit by mistake (an off-by-one, a weakened memory order, a dropped check/decrement/wake on one rare path, a wrong constant, a swapped order of two statements, a guard removed from one branch, ...). Prefer 1-15 changed lines. Do not add comments that point out the bug.
+{avoid_note}The change should look like something a developer could plausibly commit by mistake (an off-by-one, a weakened memory order, a dropped check/decrement/wake on one rare path, a wrong constant, a swapped order of two statements, a guard removed from one branch, ...). Prefer 1-15 changed lines. Do not add comments that point out the bug.
 
 Then write a DEMONSTRATION: a small standalone C++ program (or a gtest-free test) {wt}/out/demo.cpp that FAILS (non-zero exit, crash, hang detected by its own timeout, sanitizer report, or wrong count printed and non-zero exit) with your change and PASSES (exit 0) on the unchanged library. If the failure depends on a rare interleaving you may, in the demo only, widen the window (e.g. run many iterations, oversubscribe threads, use a sanitizer build, or a tiny demo-only sleep injected via a macro hook that exists ONLY in a scratch copy used by the demo) -- but the patch itself must not contain demo helpers. State honestly how often it reproduces.
 
